@@ -590,6 +590,13 @@ fn build_logical_plan_from_subquery_in_scope(
     database: &mut SparqlDatabase,
     graph_scope: &GraphTerm,
 ) -> Result<LogicalOperator, String> {
+    // The variable of an enclosing `GRAPH ?g` is not in scope inside a
+    // subquery, which starts from a fresh solution; its scans stay in the
+    // active graph that the enclosing Graph operator establishes.
+    let graph_scope = match graph_scope {
+        GraphTerm::Variable(_) => &GraphTerm::Default,
+        other => other,
+    };
     let inner_plan = build_logical_plan_from_group_in_scope(
         &subquery.query.pattern,
         prefixes,
